@@ -229,6 +229,7 @@ struct Shadow {
     cleanups: Vec<(usize, u32)>,
     frames: Vec<Frame>,
     // per-op
+    zombie_run: Option<usize>,
     runs_op: Vec<(usize, Vec<(usize, i64, bool)>, i64, Vec<usize>)>, // node, reads (id, value, tracked), result, tracked ids of that run
     batch_depth: u32,
     ran_inside_batch: Vec<usize>,
@@ -407,6 +408,11 @@ fn create_comp(w: &Rc<World>, env: &mut Vec<H>, kind: Kind, eq: EqK, body: &[Stm
         let w = &w2;
         if w.handles.borrow()[my].is_none() {
             w.handles.borrow_mut()[my] = Some(use_current_scope());
+        } else if !alive_real(w, my) {
+            // C04: "no destroyed memo or effect ever runs again" — the library is running the callback of a
+            // node that is no longer in the arena (whatever the body then does is not the program's fault)
+            let mut sh = w.sh.borrow_mut();
+            if sh.zombie_run.is_none() { sh.zombie_run = Some(my); }
         }
         {
             let mut sh = w.sh.borrow_mut();
@@ -848,6 +854,9 @@ fn judge(w: &World, k: usize, op: &Stmt, snaps: &[Option<(usize, usize, usize, b
     if let Some(f) = &sh.ctx_fail {
         fails.push(f.clone());
     }
+    if let Some(z) = sh.zombie_run {
+        fails.push(format!("[zombie-run] op {k}: the callback of computation {z} was run although the node had been destroyed"));
+    }
     // --- C04: ownership / liveness bookkeeping
     let live = snaps.iter().filter(|s| s.is_some()).count();
     if verif::node_count() != live {
@@ -1073,6 +1082,7 @@ pub fn run_case(ops: &[Stmt]) -> CaseResult {
                 sh.writes_op.clear();
                 sh.expected_panic = None;
                 sh.effect_wrote = false;
+                sh.zombie_run = None;
                 sh.batch_depth = 0;
                 sh.frames.truncate(1);
                 sh.tracked.clone()
@@ -1084,6 +1094,9 @@ pub fn run_case(ops: &[Stmt]) -> CaseResult {
                     let cls = panic_class(&m);
                     out.push(format!("{k}:panic={cls}"));
                     let expected = w.sh.borrow().expected_panic;
+                    if let Some(z) = w.sh.borrow().zombie_run {
+                        add(&mut verdicts, format!("[zombie-run] op {k}: the callback of computation {z} was run although the node had been destroyed (and panicked: {m})"));
+                    }
                     if cls == "harness" {
                         add(&mut verdicts, format!("[harness-bug] {m}"));
                     } else if expected != Some(cls) {
